@@ -10,6 +10,7 @@ CONSTANTS
   MaxLog = 3
   MaxNet = 6
   MaxEnts = 0
+  LossySend = FALSE
   SimDepth = 0
   W_CommitAnyTerm = FALSE
   W_VoteIgnoreVoted = FALSE
